@@ -1,4 +1,5 @@
 import ViaProofs.ConnLemmas
+import ViaProofs.ConnWrites
 /-
   C09 — connections close exactly when HTTP says so, never before the response is out.
 
@@ -48,6 +49,39 @@ theorem C09_keepalive_completion (fuel : Nat) (w : World) (i : Nat)
     writeCallback (fuel + 1) w i none =
       commsEvent fuel (w.upd i fun c => { c with transmitting := false }) i 1 :=
   writeDone_keepalive fuel w i halive hss hdp
+
+/-- TRACE LEVEL (every history of accepts, completions with any outcome, errors, application actions and teardowns on a
+    fresh server, every connection, both adaptor flavours): at most one write is in flight, and a connection that is not
+    `transmitting_` has NO write in flight.  Hence `disconnect()` — which shuts down at once only when `transmitting_` is
+    false and otherwise only records the request (`C09_no_shutdown_while_writing`) — never shuts a connection down over
+    a response that is still being written, and when the completion of a write performs the recorded shutdown
+    (`C09_close_on_completion`) that write was the only one in flight: nothing announced is cut off by the close,
+    whatever the response size and whatever the schedule of completions. -/
+theorem C09_no_truncation (serverOptions : List String) (history : List (List String)) (i : Nat) :
+    let w := history.foldl simOp (mkServer serverOptions)
+    (w.get i).writes.length ≤ 1 ∧ ((w.get i).transmitting = false → (w.get i).writes = []) := by
+  intro w
+  obtain ⟨h1, h2, _⟩ := winv_get (history_winv serverOptions history) i
+  refine ⟨h1, fun ht => ?_⟩
+  cases hw : (w.get i).writes with
+  | nil => rfl
+  | cons a l =>
+    have hne : (w.get i).writes ≠ [] := by rw [hw]; exact List.cons_ne_nil _ _
+    have : (w.get i).transmitting = true := h2 hne
+    rw [ht] at this
+    cases this
+
+/-- … so the library-initiated shutdown of a reachable connection that is not transmitting happens with nothing in flight -/
+theorem C09_disconnect_shuts_down_idle_only (serverOptions : List String) (history : List (List String)) (i fuel : Nat) :
+    let w := history.foldl simOp (mkServer serverOptions)
+    (disconnectConn (fuel + 1) w i = shutdownConn fuel w i ∧ (w.get i).writes = []) ∨
+    (disconnectConn (fuel + 1) w i = w.upd i fun c => { c with disconnectPending := true }) := by
+  intro w
+  cases ht : (w.get i).transmitting with
+  | false =>
+    left
+    exact ⟨by simp [disconnectConn, ht], (C09_no_truncation serverOptions history i).2 ht⟩
+  | true => right; simp [disconnectConn, ht]
 
 /-- the close decision: HTTP/1.0 or earlier, or a `close` token (any case, anywhere in the value) in Connection -/
 theorem C09_keepalive_iff (q : RQ) :
